@@ -17,10 +17,11 @@ inductive Report (κ : Type)
   | mouseSGR (b x y : Nat) (release : Bool)
   | focus (gained : Bool)
   | pasteStart | pasteEnd
-  /-- an answer to one of Vaxis's queries, complete; consumed internally -/
-  | reply (name : String)
+  /-- an answer to one of Vaxis's queries, complete; consumed internally. `announces` = the
+  capability notifications the reply stands for by the protocol (`none` = not pinned down) -/
+  | reply (name : String) (announces : Option (List String) := some [])
   /-- in-band resize report (mode 2048): the application is told to redraw -/
-  | replyInband
+  | replyInband (announces : Option (List String) := some [])
   /-- colour-theme report `CSI ? 997 ; m n`: delivered as a colour-theme update -/
   | replyTheme (mode : Nat)
   /-- a reply cut short (followed in the stream by a cancelling control) -/
@@ -62,10 +63,22 @@ def specEvents {κ : Type} : Bool → List (Report κ) → List (UEvent κ)
     | .focus false => .focusOut :: specEvents inPaste rs
     | .pasteStart => .pasteStart :: specEvents true rs
     | .pasteEnd => .pasteEnd :: specEvents false rs
-    | .reply _ => specEvents inPaste rs
-    | .replyInband => .redraw :: specEvents inPaste rs
+    | .reply _ _ => specEvents inPaste rs
+    | .replyInband _ => .redraw :: specEvents inPaste rs
     | .replyTheme m => .colorTheme m :: specEvents inPaste rs
     | .truncated _ => specEvents inPaste rs
+
+/-- The internal capability notifications the stream must produce, in order (`none` when some
+report leaves them unspecified): a failure reply announces nothing, a positive one exactly the
+capability it names. -/
+def specInternal {κ : Type} : List (Report κ) → Option (List String)
+  | [] => some []
+  | .reply _ ann :: rs | .replyInband ann :: rs => do
+      let a ← ann
+      let r ← specInternal rs
+      pure (a ++ r)
+  | .truncated _ :: _ => none
+  | _ :: rs => specInternal rs
 
 def UEvent.canon : UEvent String → String
   | .key tok et => s!"K/{tok}/{et}"
